@@ -22,9 +22,62 @@ func vStubAutomorphismGhost(eval Evaluator, ctIn *Ciphertext, galEl uint64, opOu
 	return nil
 }
 
+// vExpandNative is the native counterpart (replay / validation): the real Expand with real extraction keys on real
+// encryptions; output i must decrypt to coefficient i as its constant term, up to noise.
+func vExpandNative() {
+	c := VerifSetup_Ctx(2, false)
+	params := c.Params
+	c.Kgen.GenSecretKey(c.Sk)
+	rpk := &RingPackingEvaluationKey{Parameters: map[int]ParameterProvider{params.LogN(): params}}
+	rpk.GenExtractEvaluationKeys(params, c.Sk, EvaluationKeyParameters{})
+	eval := NewRingPackingEvaluator(rpk)
+	for _, level := range []int{params.MaxLevel(), 0} {
+		tag := "L" + vItoa(level)
+		rQ := params.RingQ().AtLevel(level)
+		pt := NewPlaintext(params, level)
+		p := make([]uint64, params.N())
+		for i := range p {
+			p[i] = uint64(1000 + 37*i)
+			for k := range rQ.SubRings[:level+1] {
+				pt.Value.Coeffs[k][i] = p[i]
+			}
+		}
+		rQ.NTT(pt.Value, pt.Value)
+		pt.IsNTT = true
+		ct := NewCiphertext(params, 1, level)
+		if err := c.EncSk.Encrypt(pt, ct); err != nil {
+			panic(err)
+		}
+		cts, err := eval.Expand(ct, 0)
+		vAssert(err == nil, tag+"-Expand-no-error")
+		if err != nil {
+			continue
+		}
+		vAssert(len(cts) == params.N(), tag+"-Expand-returns-one-ciphertext-per-coefficient")
+		for i := 0; i < params.N(); i++ {
+			o, ok := cts[i]
+			vAssert(ok && o != nil && o.Level() == level, tag+"-output-present-at-the-input-level")
+			if !ok || o == nil {
+				continue
+			}
+			out := NewPlaintext(params, level)
+			c.Dec.Decrypt(o, out)
+			want := rQ.NewPoly()
+			for k := range rQ.SubRings[:level+1] {
+				want.Coeffs[k][0] = p[i]
+			}
+			if out.IsNTT {
+				rQ.NTT(want, want)
+			}
+			vAssertNoiseFree(rQ, out.Value, want, out.IsNTT, 30, tag+"-output-i-holds-coefficient-i-as-its-constant-term")
+		}
+	}
+}
+
 func VerifH_C04_RingPackingExpand() {
 	if !vIsAlgebraic() {
-		return // engine-only: the stand-in does not exist natively
+		vExpandNative()
+		return
 	}
 	c := VerifSetup_Ctx(2, true)
 	params := c.Params
@@ -54,15 +107,22 @@ func VerifH_C04_RingPackingExpand() {
 		vAssert(len(cts) == params.N(), tag+"-Expand-returns-one-ciphertext-per-coefficient")
 		for i := 0; i < params.N(); i++ {
 			o, ok := cts[i]
-			vAssert(ok && o != nil && o.Level() == level && !o.IsNTT, tag+"-output-present-at-the-input-level-and-domain")
+			vAssert(ok && o != nil && o.Level() == level, tag+"-output-present-at-the-input-level")
 			if !ok || o == nil {
 				continue
+			}
+			// (the outputs are returned in the NTT domain and flagged so)
+			v0, v1 := o.Value[0], o.Value[1]
+			if o.IsNTT {
+				v0, v1 = rQ.NewPoly(), rQ.NewPoly()
+				rQ.INTT(o.Value[0], v0)
+				rQ.INTT(o.Value[1], v1)
 			}
 			for k, s := range rQ.SubRings[:level+1] {
 				want := make([]uint64, params.N())
 				want[0] = p[k][i]
-				vAssertEqMod(o.Value[0].Coeffs[k], want, s.Modulus, tag+"-output-i-holds-coefficient-i-as-its-constant-term")
-				vAssertEqMod(o.Value[1].Coeffs[k], make([]uint64, params.N()), s.Modulus, tag+"-second-component-stays-zero")
+				vAssertEqMod(v0.Coeffs[k], want, s.Modulus, tag+"-output-i-holds-coefficient-i-as-its-constant-term")
+				vAssertEqMod(v1.Coeffs[k], make([]uint64, params.N()), s.Modulus, tag+"-second-component-stays-zero")
 			}
 		}
 	}
